@@ -14,7 +14,10 @@ EXTENDS Integers, Sequences, FiniteSets, TLC
 
 CONSTANTS Lens,       \* sequence of total PDU lengths (each >= 7), e.g. <<26, 26, 54, 10>>
           MaxCuts,    \* maximum number of writes the peer uses (= cuts + 1)
-          Greedy      \* TRUE: the kernel always hands over everything available (used to enumerate write patterns only)
+          Greedy,     \* TRUE: the kernel always hands over everything available (used to enumerate write patterns only)
+          WakeOnArrivalOnly   \* FALSE: the code - the reader goes on as long as unread bytes exist, wherever they wait (socket buffer
+                              \* or a layer above it: the TLS record already pulled in, SSLSocket.pending());  TRUE: a reader that only
+                              \* wakes when something new arrives at the transport (select() alone) - refuted by C03_Prompt
 
 Total == LET RECURSIVE S(_) S(i) == IF i = 0 THEN 0 ELSE S(i - 1) + Lens[i] IN S(Len(Lens))
 EndOf(i) == LET RECURSIVE S(_) S(k) == IF k = 0 THEN 0 ELSE S(k - 1) + Lens[k] IN S(i)   \* offset of the last byte of frame i
@@ -26,20 +29,22 @@ VARIABLES w,          \* bytes written by the peer so far
           r,          \* bytes consumed by the reader
           delivered,  \* number of frames delivered, in order
           events,     \* what the provider queued: frame numbers and "Evt17"
-          stopped     \* the reader has seen end-of-stream
-vars == <<w, writes, closed, r, delivered, events, stopped>>
+          stopped,    \* the reader has seen end-of-stream
+          fresh       \* something arrived at the transport since the reader last looked
+vars == <<w, writes, closed, r, delivered, events, stopped, fresh>>
 
-Init == w = 0 /\ writes = <<>> /\ closed = FALSE /\ r = 0 /\ delivered = 0 /\ events = <<>> /\ stopped = FALSE
+Init == w = 0 /\ writes = <<>> /\ closed = FALSE /\ r = 0 /\ delivered = 0 /\ events = <<>> /\ stopped = FALSE /\ fresh = FALSE
 PeerWrite(k) == /\ ~closed /\ w + k <= Total /\ Len(writes) < MaxCuts
                 /\ (Greedy => r = w)          \* pattern enumeration: one write at a time, fully consumed before the next
-                /\ w' = w + k /\ writes' = Append(writes, k)
+                /\ w' = w + k /\ writes' = Append(writes, k) /\ fresh' = TRUE
                 /\ UNCHANGED <<closed, r, delivered, events, stopped>>
-PeerClose == /\ ~closed /\ (Greedy => r = w) /\ closed' = TRUE /\ UNCHANGED <<w, writes, r, delivered, events, stopped>>
+PeerClose == /\ ~closed /\ (Greedy => r = w) /\ closed' = TRUE /\ fresh' = TRUE /\ UNCHANGED <<w, writes, r, delivered, events, stopped>>
 \* the reader's next goal: the end of the current header, or of the current frame body
 Goal == IF r >= Total THEN Total
         ELSE LET i == FrameAt(r + 1) s == EndOf(i - 1) IN IF r < s + 6 THEN s + 6 ELSE EndOf(i)
 Min(a, b) == IF a < b THEN a ELSE b
 RecvSome(j) == /\ ~stopped /\ j >= 1 /\ r + j <= w /\ r + j <= Goal /\ r < Total
+               /\ (WakeOnArrivalOnly => fresh) /\ fresh' = FALSE
                /\ (Greedy => j = Min(w, Goal) - r)
                /\ r' = r + j
                /\ IF r + j = EndOf(FrameAt(r + 1)) THEN delivered' = delivered + 1 /\ events' = Append(events, delivered + 1)
@@ -47,9 +52,12 @@ RecvSome(j) == /\ ~stopped /\ j >= 1 /\ r + j <= w /\ r + j <= Goal /\ r < Total
                /\ UNCHANGED <<w, writes, closed, stopped>>
 RecvEOF == /\ ~stopped /\ closed /\ r = w
            /\ stopped' = TRUE /\ events' = Append(events, "Evt17")
-           /\ UNCHANGED <<w, writes, closed, r, delivered>>
+           /\ UNCHANGED <<w, writes, closed, r, delivered, fresh>>
 Next == (\E k \in 1..Total : PeerWrite(k)) \/ PeerClose \/ (\E j \in 1..Total : RecvSome(j)) \/ RecvEOF
 Spec == Init /\ [][Next]_vars
+\* the reader needs no further action of the peer: what has arrived is consumed, a close is noticed
+FairSpec == Spec /\ WF_vars(\E j \in 1..Total : RecvSome(j)) /\ WF_vars(RecvEOF)
+C03_Prompt == []<>(r = w /\ (closed => stopped))
 
 \* frames are delivered in order, each once, exactly those wholly received
 C03_Prefix == /\ delivered = Cardinality({i \in 1..Len(Lens) : EndOf(i) <= r})
